@@ -938,5 +938,41 @@ example : boundOutsidePromoted .u32 (-1) = true ∧ boundOutsidePromoted .i64 (-
     boundOutsidePromoted .u16 (-1) = false ∧ CTy.u32.Sub .u32 ∧ CTy.u32.InRange 5 := by
   refine ⟨by decide, by decide, by decide, CTy.sub_refl _, by decide⟩
 
+/-! ## enumerated sub-trees (rRecurs) and index digit runs that do not fit `int` -/
+
+/-- **recurs_index_of_address** (`rRecursCb` / `rRecurspCb`: `data.obj = &obj->name[idx]` with the index
+    extraction of `rBOILS_BEGIN`): for an enumerated sub-tree port `name#N/` the element whose object is
+    handed down is the number written behind the name in the address, whatever follows the `/`.
+    (Which C++ object that is, is observed on the compiled code only: harness/param.cpp `/voice<k>/`.) -/
+theorem recurs_index_of_address (name rest ds tail : Bytes) (hname : ∀ c ∈ name, c ≠ 35)
+    (hds : AllDigits ds) (hne : ds ≠ []) (hv : digitsVal ds ≤ 2147483647) :
+    arrayIndex (name ++ 35 :: rest) (name ++ ds ++ 47 :: tail) = .ok (digitsVal ds) := by
+  have hst : Stops (47 :: tail) := Or.inr ⟨47, tail, rfl, by decide⟩
+  rw [List.append_assoc]
+  simp only [arrayIndex, walkPrefix_name name rest (ds ++ 47 :: tail) hname, atoi_run ds (47 :: tail) hds hne hst, hv,
+    if_true]
+  have : ¬ ((digitsVal ds : Int) < 0) := by omega
+  simp [this]
+
+-- `voice#3/` and `voice2/vvol`: element 2
+example : (arrayIndex [118, 111, 105, 99, 101, 35, 51, 47] [118, 111, 105, 99, 101, 50, 47, 118, 118, 111, 108]).toOption =
+    some 2 := by decide
+
+/-- **matchPath_index_overflow**: an index digit run in the address whose value does not fit `int`
+    (`atoi` undefined) makes the `#N` step of the matcher undefined in the model - it neither matches nor
+    rejects, and nothing is defaulted.  The compiled `rtosc_match_number` wraps such a run modulo 2^32
+    (ASSUMPTIONS of the property module: index digit runs below 2^31). -/
+theorem matchPath_index_overflow (fuel : Nat) (p ds : Bytes) (pc mc : UInt8)
+    (hp : isDigit pc = true) (hm : isDigit mc = true) (hov : atoi (mc :: ds) = none) :
+    matchPath (fuel + 1) (35 :: pc :: p) (mc :: ds) = .error .unsup := by
+  simp only [matchPath, hp, hm, hov, Bool.and_self, if_true]
+  cases atoi (pc :: p) <;> rfl
+
+/-- **array_index_overflow_unsup**: the witness of the second review (B1) on the model: `af4294967299`
+    sent to `af#4::f` is reported as outside the model; the compiled code delivers it to element 3. -/
+theorem array_index_overflow_unsup :
+    dispatch exPortAF [47] [97, 102, 52, 50, 57, 52, 57, 54, 55, 50, 57, 57] (.flts [0, 0, 0, 0]) [.f 0] =
+      .error .unsup := by
+  rfl
 
 end Rtosc.Param
